@@ -114,7 +114,7 @@ def rulesets(tier):
     # the same analysis on grammars produced by the real loader under --skip_brute / --all_lower (Markov line in the middle of the structure list):
     # the reference is the rescaled / collapsed ruleset
     disk = dict(D.TERMINALS[1])
-    disk.update(grammar=[('D1', .35), ('M', .30), ('A1D1', .2), ('D2', .15)], prince=D.PRINCE)
+    disk.update(grammar=[('D1', .3), ('M', .30), ('A1D1', .15), ('D1O1', .15), ('K4X1', .1)], prince=D.PRINCE)      # O1 holds '#', X1 holds '#1'
     for sb, sc in ((True, False), (True, True), (False, True)):
         types_l, base_l = R.ref_loaded(disk, sb, sc)
         out.append(('loaded from disk, skip_brute=%s all_lower=%s' % (sb, sc), types_l, base_l, (disk, sb, sc)))
